@@ -143,7 +143,7 @@ func safeVerify(e *hg.Event) (ok bool, panicked bool) {
 func runC07(r *Result, thorough bool) {
 	r.Rule = "valid gossip DAGs (3-6 validators, optional joiner) fed to a real Hashgraph with hostile variations injected at random points " +
 		"(tampered payload, wrong/duplicate/negative/skipped index re-signed by the creator, first event with index != 0, unknown or future parents, " +
-		"foreign creator, equivocation, replay, bad internal-transaction signature, self-parent of another creator); accept / rejection kind compared " +
+		"foreign creator, equivocation, replay, bad internal-transaction signature, self-parent of another creator; and the sync path: events in wire form rebuilt by ReadWireInfo with tampered index / self-parent index / other-parent index, re-signed by the creator, inserted as core.sync does); accept / rejection kind compared " +
 		"with the Lean admission function; oracle: admission invariant on the real store after every attempt, digest unchanged on rejection. " +
 		"non-trivial: >=1 accepted and rejected attempts of >=3 different kinds"
 	rng := rand.New(rand.NewSource(r.Seed))
@@ -176,6 +176,7 @@ func runC07(r *Result, thorough bool) {
 		kinds := map[string]int{}
 		accepted, rejected := 0, 0
 		tn := 0
+		setWire := true // false: the event comes from ReadWireInfo, as in core.sync
 		attempt := func(g *gEvent, spName, opName, kind string) {
 			ok, panicked := safeVerify(&hg.Event{Body: g.ev.Body, Signature: g.ev.Signature})
 			if panicked {
@@ -192,7 +193,7 @@ func runC07(r *Result, thorough bool) {
 					}
 				}()
 				cp := &hg.Event{Body: g.ev.Body, Signature: g.ev.Signature}
-				err = nd.h.InsertEventAndRunConsensus(cp, true)
+				err = nd.h.InsertEventAndRunConsensus(cp, setWire)
 			}()
 			op := fmt.Sprintf("HG run 1 %s", g.name)
 			if err != nil {
@@ -295,12 +296,87 @@ func runC07(r *Result, thorough bool) {
 			}
 			attempt(g, nameOfHex(spHex), nameOfHex(opHex), kind)
 		}
+		// the sync path: the event travels in wire form (creator id and parent *indexes*), the
+		// victim rebuilds parents and index with ReadWireInfo, a Byzantine creator signs whatever
+		// body that yields; inserted without recomputing the wire info, as core.sync does
+		wireVariant := func(base *gEvent, kind string) {
+			stored, err := ref.store.GetEvent(base.ev.Hex())
+			if err != nil {
+				return
+			}
+			w := stored.ToWire()
+			switch kind {
+			case "wire-valid":
+			case "wire-first-negative":
+				if base.sp != nil {
+					return
+				}
+				k := -2 - rng.Intn(4)
+				w.Body.SelfParentIndex = k
+				w.Body.Index = k + 1
+			case "wire-index-shift":
+				w.Body.Index += []int{-2, -1, 1, 2, 5}[rng.Intn(5)]
+			case "wire-selfparent-back":
+				if w.Body.SelfParentIndex < 1 {
+					return
+				}
+				w.Body.SelfParentIndex -= 1 + rng.Intn(w.Body.SelfParentIndex)
+				w.Body.Index = w.Body.SelfParentIndex + 1
+			case "wire-selfparent-negative":
+				w.Body.SelfParentIndex = -2 - rng.Intn(4)
+			case "wire-otherparent-negative":
+				w.Body.OtherParentIndex = -2 - rng.Intn(4)
+			}
+			before := nd.storeDigest()
+			var ev1 *hg.Event
+			func() {
+				defer func() {
+					if rec := recover(); rec != nil {
+						err = fmt.Errorf("PANIC %v", rec)
+					}
+				}()
+				ev1, err = nd.h.ReadWireInfo(w)
+			}()
+			if err != nil || ev1 == nil {
+				r.Inc("wire_unreadable_"+kind, 1)
+				if after := nd.storeDigest(); after != before {
+					r.Violate("impl-violation", fmt.Sprintf("an unreadable wire event (%s, %v) changed the store", kind, err), "rejected-not-noop", map[string]interface{}{"kind": kind})
+				}
+				return
+			}
+			if kind != "wire-valid" {
+				if ev1.Hex() == base.ev.Hex() {
+					r.Inc("wire_tampering_without_effect", 1)
+					return // the victim rebuilt the original event: nothing hostile about it
+				}
+				ev1.Sign(d.parts[base.creator].key) // Byzantine creator: signs the body the victim rebuilds
+			}
+			tn++
+			name := fmt.Sprintf("t%d", 100000+tn)
+			if kind == "wire-valid" {
+				if nd.inserted[base.name] {
+					return
+				}
+				name = base.name
+			}
+			g := &gEvent{name: name, num: -1, ev: ev1, creator: base.creator, txs: base.txs, itx: base.itx, sp: base.sp, op: base.op}
+			setWire = false
+			attempt(g, nameOfHex(ev1.SelfParent()), nameOfHex(ev1.OtherParent()), kind)
+			setWire = true
+		}
+		wireKinds := []string{"wire-first-negative", "wire-first-negative", "wire-index-shift", "wire-index-shift", "wire-selfparent-back", "wire-selfparent-back", "wire-selfparent-negative", "wire-selfparent-negative", "wire-otherparent-negative"}
 		allKinds := []string{"index+1", "index-1", "index-same-as-parent", "index-negative", "index-skip", "unknown-selfparent", "unknown-otherparent",
 			"foreign-creator", "wrong-key", "selfparent-of-other", "no-selfparent", "tampered-payload", "bad-itx-signature"}
 		for i, g := range d.events {
 			// hostile variations of the event that is about to be inserted
 			if rng.Intn(3) == 0 {
 				variant(g, allKinds[rng.Intn(len(allKinds))])
+			}
+			if rng.Intn(3) == 0 || (g.sp == nil && rng.Intn(2) == 0) {
+				wireVariant(g, wireKinds[rng.Intn(len(wireKinds))])
+			}
+			if rng.Intn(3) == 0 {
+				wireVariant(g, "wire-valid")
 			}
 			// a future event (parents not yet known)
 			if rng.Intn(12) == 0 && i+3 < len(d.events) {
